@@ -2633,88 +2633,6 @@ void Analyser::AnalyserImpl::analyseModel(const ModelPtr &model)
         return;
     }
 
-    // Check that the variables that were marked as external were rightly so.
-
-    for (const auto &primaryExternalVariable : primaryExternalVariables) {
-        std::string description;
-
-        // Note: the primary variable of an equivalence class may have changed
-        //       since the variables were marked, so retrieve it again.
-
-        auto primaryVariable = Analyser::AnalyserImpl::internalVariable(primaryExternalVariable.first)->mVariable;
-        auto isVoi = (mModel->mPimpl->mVoi != nullptr)
-                     && (primaryVariable == mModel->mPimpl->mVoi->variable());
-        auto equivalentVariableCount = primaryExternalVariable.second.size();
-        auto hasPrimaryVariable = std::find(primaryExternalVariable.second.begin(),
-                                            primaryExternalVariable.second.end(),
-                                            primaryVariable)
-                                  != primaryExternalVariable.second.end();
-
-        if (isVoi || (equivalentVariableCount > 1) || !hasPrimaryVariable) {
-            description += (equivalentVariableCount == 2) ? "Both " : "";
-
-            for (size_t i = 0; i < equivalentVariableCount; ++i) {
-                if (i != 0) {
-                    description += (i != equivalentVariableCount - 1) ? ", " : " and ";
-                }
-
-                auto variableString = ((i == 0) && (equivalentVariableCount != 2)) ?
-                                          std::string("Variable") :
-                                          std::string("variable");
-
-                description += variableString + " '" + primaryExternalVariable.second[i]->name()
-                               + "' in component '" + owningComponent(primaryExternalVariable.second[i])->name()
-                               + "'";
-            }
-
-            Issue::ReferenceRule referenceRule;
-
-            if (isVoi) {
-                description += (equivalentVariableCount == 1) ?
-                                   " is marked as an external variable, but it is" :
-                                   " are marked as external variables, but they are";
-
-                if ((equivalentVariableCount == 1) && hasPrimaryVariable) {
-                    description += " the";
-                } else {
-                    description += " equivalent to variable '" + primaryVariable->name()
-                                   + "' in component '" + owningComponent(primaryVariable)->name()
-                                   + "', the primary";
-                }
-
-                description += " variable of integration which cannot be used as an external variable.";
-
-                referenceRule = Issue::ReferenceRule::ANALYSER_EXTERNAL_VARIABLE_VOI;
-            } else {
-                description += (equivalentVariableCount == 1) ?
-                                   " is marked as an external variable, but it is not a primary variable." :
-                                   " are marked as external variables, but they are";
-                description += (equivalentVariableCount > 2) ? " all" : "";
-                description += (equivalentVariableCount == 1) ? "" : " equivalent.";
-                description += " Variable '" + primaryVariable->name()
-                               + "' in component '" + owningComponent(primaryVariable)->name()
-                               + "' is";
-                description += hasPrimaryVariable ?
-                                   " the" :
-                               (equivalentVariableCount == 1) ?
-                                   " its corresponding" :
-                                   " their corresponding";
-                description += " primary variable and will therefore be the one used as an external variable.";
-
-                referenceRule = Issue::ReferenceRule::ANALYSER_EXTERNAL_VARIABLE_USE_PRIMARY_VARIABLE;
-            }
-
-            auto issue = Issue::IssueImpl::create();
-
-            issue->mPimpl->setDescription(description);
-            issue->mPimpl->setLevel(Issue::Level::MESSAGE);
-            issue->mPimpl->setReferenceRule(referenceRule);
-            issue->mPimpl->mItem->mPimpl->setVariable(primaryVariable);
-
-            addIssue(issue);
-        }
-    }
-
     // Analyse our different equations' units to make sure that everything is
     // consistent.
 
@@ -2796,6 +2714,91 @@ void Analyser::AnalyserImpl::analyseModel(const ModelPtr &model)
             }
         }
     } while (relevantCheck);
+
+    // Check that the variables that were marked as external were rightly so.
+    // Note: this is done once the primary variable of every equivalence class is
+    //       known for good, i.e. after the above loop.
+
+
+    for (const auto &primaryExternalVariable : primaryExternalVariables) {
+        std::string description;
+
+        // Note: the primary variable of an equivalence class may have changed
+        //       since the variables were marked, so retrieve it again.
+
+        auto primaryVariable = Analyser::AnalyserImpl::internalVariable(primaryExternalVariable.first)->mVariable;
+        auto isVoi = (mModel->mPimpl->mVoi != nullptr)
+                     && (primaryVariable == mModel->mPimpl->mVoi->variable());
+        auto equivalentVariableCount = primaryExternalVariable.second.size();
+        auto hasPrimaryVariable = std::find(primaryExternalVariable.second.begin(),
+                                            primaryExternalVariable.second.end(),
+                                            primaryVariable)
+                                  != primaryExternalVariable.second.end();
+
+        if (isVoi || (equivalentVariableCount > 1) || !hasPrimaryVariable) {
+            description += (equivalentVariableCount == 2) ? "Both " : "";
+
+            for (size_t i = 0; i < equivalentVariableCount; ++i) {
+                if (i != 0) {
+                    description += (i != equivalentVariableCount - 1) ? ", " : " and ";
+                }
+
+                auto variableString = ((i == 0) && (equivalentVariableCount != 2)) ?
+                                          std::string("Variable") :
+                                          std::string("variable");
+
+                description += variableString + " '" + primaryExternalVariable.second[i]->name()
+                               + "' in component '" + owningComponent(primaryExternalVariable.second[i])->name()
+                               + "'";
+            }
+
+            Issue::ReferenceRule referenceRule;
+
+            if (isVoi) {
+                description += (equivalentVariableCount == 1) ?
+                                   " is marked as an external variable, but it is" :
+                                   " are marked as external variables, but they are";
+
+                if ((equivalentVariableCount == 1) && hasPrimaryVariable) {
+                    description += " the";
+                } else {
+                    description += " equivalent to variable '" + primaryVariable->name()
+                                   + "' in component '" + owningComponent(primaryVariable)->name()
+                                   + "', the primary";
+                }
+
+                description += " variable of integration which cannot be used as an external variable.";
+
+                referenceRule = Issue::ReferenceRule::ANALYSER_EXTERNAL_VARIABLE_VOI;
+            } else {
+                description += (equivalentVariableCount == 1) ?
+                                   " is marked as an external variable, but it is not a primary variable." :
+                                   " are marked as external variables, but they are";
+                description += (equivalentVariableCount > 2) ? " all" : "";
+                description += (equivalentVariableCount == 1) ? "" : " equivalent.";
+                description += " Variable '" + primaryVariable->name()
+                               + "' in component '" + owningComponent(primaryVariable)->name()
+                               + "' is";
+                description += hasPrimaryVariable ?
+                                   " the" :
+                               (equivalentVariableCount == 1) ?
+                                   " its corresponding" :
+                                   " their corresponding";
+                description += " primary variable and will therefore be the one used as an external variable.";
+
+                referenceRule = Issue::ReferenceRule::ANALYSER_EXTERNAL_VARIABLE_USE_PRIMARY_VARIABLE;
+            }
+
+            auto issue = Issue::IssueImpl::create();
+
+            issue->mPimpl->setDescription(description);
+            issue->mPimpl->setLevel(Issue::Level::MESSAGE);
+            issue->mPimpl->setReferenceRule(referenceRule);
+            issue->mPimpl->mItem->mPimpl->setVariable(primaryVariable);
+
+            addIssue(issue);
+        }
+    }
 
     // Make sure that our variables are valid.
 
